@@ -181,6 +181,7 @@ pub fn per_file_union(es: &[Entry], sel: &Selection) -> Result<Findings, String>
 pub const SRC_P: &str = "pragma solidity ^0.8.0;\ncontract A {\n  function f(uint256 a) public payable returns (uint256) {\n    return a + 1;\n  }\n  constructor() {}\n}\n";
 pub const SRC_P2: &str = "\n\npragma solidity ^0.8.0;\ncontract A {\n  function f(uint256 a) public payable returns (uint256) {\n    return a + 1;\n  }\n  constructor() {}\n}\n";
 pub const SRC_PQ: &str = "pragma solidity ^0.8.0;\ncontract B {\n  uint256 private hidden;\n  function g(uint256 a, uint256 b, address t) public payable returns (bool) {\n    IERC20(t).transfer(t, a - b);\n    return a >= b;\n  }\n  constructor() {}\n}\n";
+pub const SRC_SUICIDE: &str = "pragma solidity 0.8.19;\ncontract K {\n  function kill(address payable to) external {\n    suicide(to);\n  }\n}\n";
 pub const SRC_NONE: &str = "pragma solidity 0.8.19;\ncontract N {\n}\n";
 pub const GARBAGE: &[u8] = b"this is { not solidity ))) \n";
 pub const NON_UTF8: &[u8] = &[0xff, 0xfe, 0x00, 0x80, b'\n', 0xc3];
@@ -195,6 +196,7 @@ fn selections(tier: Tier) -> Vec<(String, Selection)> {
     let q = |n: &str| qa::str_to_qa(n);
     let mut s = vec![
         ("one".to_string(), Selection { opts: vec![o("solidity_math")], vulns: vec![v("floating_pragma")], qas: vec![q("constructor_order")] }),
+        ("selfdestruct".to_string(), Selection { opts: vec![o("payable_function")], vulns: vec![v("unprotected_selfdestruct")], qas: vec![q("private_func_leading_underscore")] }),
         (
             "two".to_string(),
             Selection { opts: vec![o("solidity_math"), o("optimal_comparison")], vulns: vec![v("floating_pragma"), v("unsafe_erc20_operation")], qas: vec![q("constructor_order"), q("private_vars_leading_underscore")] },
@@ -241,7 +243,9 @@ fn gen_dirs(files: &[Entry], depth: usize, budget: usize) -> Vec<Vec<Entry>> {
         for sub in gen_dirs(files, depth - 1, rest - 1) {
             let mut v = fs.clone();
             let c: usize = sub.iter().map(|e| e.count()).sum();
-            v.push(Entry::Dir { name: "d1".into(), children: sub.clone() });
+            // sub-directory names: an ordinary one, or one that looks like a source file
+            let dname = if (used + c + depth) % 3 == 0 { "lib.sol" } else { "d1" };
+            v.push(Entry::Dir { name: dname.into(), children: sub.clone() });
             out.push(v.clone());
             // two sub-directories
             if rest >= 2 + c {
@@ -300,8 +304,9 @@ pub fn c03(tier: Tier) -> i32 {
         file("N.sol", SRC_NONE.as_bytes()),
         file("x.txt", GARBAGE),
         file("A.sol", SRC_P2.as_bytes()),
+        file("K.sol", SRC_SUICIDE.as_bytes()),
     ];
-    let budget = if tier == Tier::Quick { 4 } else { 5 };
+    let budget = if tier == Tier::Quick { 4 } else { 6 };
     let trees = gen_dirs(&alphabet, 2, budget);
     let sels = selections(tier);
     let res = util::par_map(trees.len(), |ti| {
@@ -367,6 +372,48 @@ pub fn c03(tier: Tier) -> i32 {
         outcomes.extend(o);
         run.merge_violations(vs);
     }
+    // ---- histories in one process: analyse, rewrite a file in place with different content of the same
+    //      byte length (and with different length), analyse again; each result must be the per-file union
+    //      of the tree as it is at that moment
+    {
+        let root = worker_root("c03hist");
+        let variants: Vec<(&str, String)> = vec![
+            ("v1", "pragma solidity ^0.8.0;\ncontract A {\n  function burn(uint256 a) private returns (uint256) {\n    return a + 1;\n  }\n}\n".to_string()),
+            ("v2-same-length", "pragma solidity ^0.8.0;\ncontract A {\n  function _brn(uint256 a) public  returns (uint256) {\n    return a + 1;\n  }\n}\n".to_string()),
+            ("v3-same-length", "pragma solidity  0.8.0;\ncontract A {\n  function burn(uint256 a) private returns (uint256) {\n    return a >= 1;\n  }\n}\n".to_string()),
+            ("v4-longer", "\n\npragma solidity ^0.8.0;\ncontract A {\n  function burn(uint256 a) private returns (uint256) {\n    return a + 1;\n  }\n}\n".to_string()),
+        ];
+        let sel = Selection { opts: opt::get_all_optimizations(), vulns: vul::get_all_vulnerabilities(), qas: qa::get_all_qa() };
+        for order in permutations(variants.len()) {
+            let _ = std::fs::remove_dir_all(&root);
+            let mut hist: Vec<&str> = Vec::new();
+            for &k in &order {
+                let (name, content) = &variants[k];
+                hist.push(name);
+                let tree = vec![file("A.sol", content.as_bytes()), Entry::Dir { name: "sub".into(), children: vec![file("A.sol", variants[(k + 1) % variants.len()].1.as_bytes())] }];
+                materialise(&root, &tree);
+                states += 1;
+                calls += 3;
+                let got = run_analyze_dir(&root, &sel);
+                let want = per_file_union(&tree, &sel);
+                if got != want {
+                    run.violation(Violation {
+                        site: "analyze_dir:stale-after-rewrite".into(),
+                        input: format!("A.sol and sub/A.sol rewritten in place; history of contents {:?}", hist),
+                        expected: "the result reflects the files as they are now".into(),
+                        observed: match (&got, &want) {
+                            (Ok(g), Ok(w)) => diff_findings(g, w),
+                            _ => format!("{:?} vs {:?}", got.is_ok(), want.is_ok()),
+                        },
+                        size: hist.len(),
+                        unit_test: String::new(),
+                        extra: json!({}),
+                    });
+                }
+            }
+        }
+        let _ = std::fs::remove_dir_all(&root);
+    }
     // ---- binary-level replay of small trees on tmpfs (creation history decides the listing order)
     let rp = binary_replay(&trees.iter().filter(|t| t.iter().map(|e| e.count()).sum::<usize>() <= 3).cloned().collect::<Vec<_>>(), &mut run);
     run.set("states", states);
@@ -379,11 +426,11 @@ pub fn c03(tier: Tier) -> i32 {
     run.set("trees", trees.len() as u64);
     run.set(
         "rule",
-        "states = (directory tree, listing order of every directory, selected pattern list): all trees with <= 4 (quick) / 5 (thorough) entries, depth <= 2, over files {findings for p; for p and q; blank; no findings; ineligible; same name as another file with identical / shifted line sets} x every permutation of every directory's listing (seam) x pattern lists (one, two in both orders, thorough: all); oracle = sorted multiset of (file name, line set) per pattern from analysing each eligible file alone; binary level: trees of <= 3 entries materialised on tmpfs in a creation order that yields the wanted listing (verified by reading the directory back), unhooked binary, report parsed back; non-trivial = distinct analyze_dir results",
+        "states = (directory tree, listing order of every directory, selected pattern list): all trees with <= 4 (quick) / 6 (thorough) entries, depth <= 2, over files {findings for p; for p and q; blank; no findings; ineligible; same name as another file with identical / shifted line sets} x every permutation of every directory's listing (seam) x pattern lists (one, two in both orders, thorough: all); oracle = sorted multiset of (file name, line set) per pattern from analysing each eligible file alone; binary level: trees of <= 3 entries materialised on tmpfs in a creation order that yields the wanted listing (verified by reading the directory back), unhooked binary, report parsed back; non-trivial = distinct analyze_dir results",
     );
     run.set("bound_completed", format!("entries <= {}, depth <= 2", budget));
     run.set("samples", json!(trees.iter().step_by(trees.len() / 3 + 1).take(3).map(|t| describe(t)).collect::<Vec<_>>()));
-    run.assume("file names are valid Unicode; no symbolic links, unreadable files or directories named *.sol");
+    run.assume("file names are valid Unicode; no symbolic links or unreadable files");
     run.finish()
 }
 
@@ -497,7 +544,7 @@ pub fn c16(tier: Tier) -> i32 {
     let mut run = Run::new("C16", if tier == Tier::Quick { "quick" } else { "thorough" });
     let names_inelig = [
         "a.SOL", "a.Sol", "a.sOL", "a.t.sol", "a.T.sol", "a.t.Sol", "a.T.SOL", "asol", "sol", ".t.sol", "a.sol.txt", "a.solx", "a.t.sol.bak", "a.txt", "README.md", "solstat_report.md", "naïve.md", "é.json",
-        "日本語メモ.txt", "a.sol~", "A.T.Sol", "Überprüfung.t.sol",
+        "日本語メモ.txt", "a.sol~", "A.T.Sol", "Überprüfung.t.sol", "Solstat.toml", "solstat.toml", ".gitignore", "foundry.toml",
     ];
     let names_elig = ["a.sol", ".sol", "t.sol", "é.sol", "a b.sol", "tt.sol", "at.sol", "x.y.sol"];
     for n in names_inelig {
@@ -510,7 +557,8 @@ pub fn c16(tier: Tier) -> i32 {
             run.machinery(format!("alphabet error: {} is not eligible", n));
         }
     }
-    let contents_inelig: [&[u8]; 4] = [SRC_PQ.as_bytes(), b"", GARBAGE, NON_UTF8];
+    const NARROW_TOML: &[u8] = b"path = './nowhere'\noptimizations = [\"sstore\"]\nvulnerabilities = []\nqa = []\n";
+    let contents_inelig: [&[u8]; 5] = [SRC_PQ.as_bytes(), b"", GARBAGE, NON_UTF8, NARROW_TOML];
     let contents_elig: [&[u8]; 3] = [SRC_P.as_bytes(), SRC_PQ.as_bytes(), b""];
     let mut inelig: Vec<Entry> = Vec::new();
     for n in names_inelig {
@@ -528,10 +576,12 @@ pub fn c16(tier: Tier) -> i32 {
     // trees: [ineligible], [eligible], [eligible, ineligible], [ineligible, ineligible'], at depth 0..2
     let mut trees: Vec<Vec<Entry>> = Vec::new();
     let wrap = |es: Vec<Entry>, depth: usize| -> Vec<Entry> {
+        // directory names rotate over ordinary, hidden and source-like names
+        let dn = [".deps", "d1", "lib.sol"][es.iter().map(|e| e.name().len()).sum::<usize>() % 3];
         match depth {
             0 => es,
-            1 => vec![Entry::Dir { name: "d1".into(), children: es }],
-            _ => vec![Entry::Dir { name: "d1".into(), children: vec![Entry::Dir { name: "d2".into(), children: es }] }],
+            1 => vec![Entry::Dir { name: dn.into(), children: es }],
+            _ => vec![Entry::Dir { name: "d1".into(), children: vec![Entry::Dir { name: dn.into(), children: es }] }],
         }
     };
     for depth in 0..=2 {
@@ -682,7 +732,14 @@ pub fn c16(tier: Tier) -> i32 {
         run.merge_violations(vs);
     }
     // binary replay for depth <= 1 trees with <= 2 root entries
-    let small: Vec<Vec<Entry>> = trees.iter().filter(|t| t.len() <= 2 && t.iter().map(|e| e.count()).sum::<usize>() <= 3).step_by(if tier == Tier::Quick { 5 } else { 1 }).cloned().collect();
+    let step = if tier == Tier::Quick { 5 } else { 1 };
+    let small: Vec<Vec<Entry>> = trees
+        .iter()
+        .filter(|t| t.len() <= 2 && t.iter().map(|e| e.count()).sum::<usize>() <= 3)
+        .enumerate()
+        .filter(|(i, t)| i % step == 0 || t.iter().any(|e| e.name().to_lowercase().ends_with(".toml")))
+        .map(|(_, t)| t.clone())
+        .collect();
     let rp = binary_replay(&small, &mut run);
     run.set("states", states);
     run.set("transitions", calls);
@@ -719,6 +776,17 @@ pub fn c13_directory_level(tier: Tier) -> DirLevel {
         vec![file("A.sol", SRC_P.as_bytes()), file("B.sol", SRC_PQ.as_bytes()), file("C.sol", SRC_PQ.as_bytes())],
         vec![Entry::Dir { name: "v1".into(), children: vec![file("Token.sol", SRC_P.as_bytes())] }, Entry::Dir { name: "v2".into(), children: vec![file("Token.sol", SRC_P2.as_bytes())] }, file("B.sol", SRC_PQ.as_bytes())],
         vec![file("Token.sol", SRC_P2.as_bytes()), Entry::Dir { name: "sub".into(), children: vec![file("Token.sol", SRC_P.as_bytes()), file("Z.sol", SRC_PQ.as_bytes())] }],
+        // two different files of the same byte length at the same listing index of sibling directories
+        vec![
+            Entry::Dir { name: "a".into(), children: vec![file("Vault.sol", format!("\n\n{}", SRC_PQ).as_bytes())] },
+            Entry::Dir { name: "b".into(), children: vec![file("Guard.sol", format!("{}\n\n", SRC_PQ.replace("a >= b", "a >  b")).as_bytes())] },
+        ],
+        // identical copies of one file in two directories, another file possibly listed between them
+        vec![
+            Entry::Dir { name: "x".into(), children: vec![file("IERC20.sol", SRC_P.as_bytes())] },
+            Entry::Dir { name: "y".into(), children: vec![file("Pool.sol", SRC_PQ.as_bytes())] },
+            Entry::Dir { name: "z".into(), children: vec![file("IERC20.sol", SRC_P.as_bytes())] },
+        ],
     ];
     let o = |n: &str| opt::str_to_optimization(n);
     let v = |n: &str| vul::str_to_vulnerability(n);
@@ -826,4 +894,71 @@ pub fn c13_directory_level(tier: Tier) -> DirLevel {
     }
     let _ = std::fs::remove_dir_all(&dir);
     dl
+}
+
+// ======================================================================================= directory-level layouts
+
+/// C02 (d) / C17: the same token-preserving re-layouts, but through `analyze_dir` (the path the
+/// command-line program takes): a file is written under each layout and the lines reported for it
+/// must be the lines of the tokens flagged on the one-token-per-line layout.
+pub fn dir_layout_check(progs: &[crate::synth::Prog], property: &str) -> (Vec<Violation>, u64, u64) {
+    use crate::layout;
+    let detectors = crate::dets::all();
+    let sel = Selection { opts: opt::get_all_optimizations(), vulns: vul::get_all_vulnerabilities(), qas: qa::get_all_qa() };
+    let res = util::par_map(progs.len(), |pi| {
+        let p = &progs[pi];
+        let n = p.toks.len();
+        let (l1, _) = crate::synth::render_l1(&p.toks);
+        let mut flagged: Vec<(Pat, BTreeSet<usize>)> = Vec::new();
+        for d in &detectors {
+            if let Ok(ls) = crate::dets::run_guarded(d, &l1, 0) {
+                if !ls.is_empty() && ls.iter().all(|&l| l >= 1 && (l as usize) <= n) {
+                    let pat = match d.det {
+                        crate::dets::Det::Opt(o) => pat_of_opt(&o),
+                        crate::dets::Det::Vuln(v) => pat_of_vuln(&v),
+                        crate::dets::Det::Qa(q) => pat_of_qa(&q),
+                    };
+                    flagged.push((pat, ls.iter().map(|&l| (l - 1) as usize).collect()));
+                }
+            }
+        }
+        let mut vs = Vec::new();
+        let mut states = 0u64;
+        let root = worker_root("dirlay");
+        for lay in layout::uniform(n) {
+            let (text, offs) = layout::render(&p.toks, &lay);
+            let _ = std::fs::remove_dir_all(&root);
+            std::fs::create_dir_all(root.join("one")).unwrap();
+            std::fs::write(root.join("one").join("F.sol"), &text).unwrap();
+            states += 1;
+            let got = run_analyze_dir(&root, &sel);
+            let mut want: Findings = BTreeMap::new();
+            for (pat, toks) in &flagged {
+                want.insert(*pat, vec![("F.sol".to_string(), toks.iter().map(|&t| layout::line_of(&text, offs[t])).collect())]);
+            }
+            if got.as_ref().ok() != Some(&want) {
+                vs.push(Violation {
+                    site: format!("analyze_dir:lines-do-not-follow-layout:{}", if text.starts_with(['\n', '\r', ' ', '\t']) { "leading-white-space" } else { "other" }),
+                    input: format!("{:?}", text),
+                    expected: "through analyze_dir, the lines reported for the file are the lines of the flagged tokens in this layout".into(),
+                    observed: match &got {
+                        Ok(g) => diff_findings(g, &want),
+                        Err(e) => format!("panic: {}", e),
+                    },
+                    size: text.len(),
+                    unit_test: String::new(),
+                    extra: json!({"layout": lay.label, "property": property}),
+                });
+            }
+        }
+        let _ = std::fs::remove_dir_all(&root);
+        (vs, states)
+    });
+    let mut vs = Vec::new();
+    let mut states = 0u64;
+    for (v, s) in res {
+        vs.extend(v);
+        states += s;
+    }
+    (vs, states, states * 3)
 }
